@@ -1,4 +1,5 @@
-// Kani contracts for src/sim/frame.rs (overlaid as `crate::sim::frame::verif_kani`).
+// Helpers for the Kani contracts of src/sim/frame.rs (overlaid as `crate::sim::frame::verif_kani`); the obligations
+// themselves are in sim__frame__h.rs (kept apart so that editing them does not invalidate the simulator obligations' cache).
 // C27 (frame depth and debug frames), C16 (no panic in push/pop).
 use super::*;
 
@@ -28,124 +29,4 @@ pub(crate) fn contract_push_frame(fs: &mut FrameStack, caller: u16, callee: u16,
     fs.frame_no += 1;
     let k = match frame_type { FrameType::Subroutine => 0, FrameType::Trap => 1, FrameType::Interrupt => 2 };
     unsafe { if PUSHED_N < 2 { PUSHED[PUSHED_N] = Some((caller, callee, k)); } PUSHED_N += 1; }
-}
-
-/// L0: push_frame / pop_frame without debug frames: depth +1 / saturating -1, never panics below u64::MAX.
-#[kani::proof]
-#[kani::stub(std::hash::RandomState::new, stub_random_state)]
-#[kani::unwind(9)]
-fn depth_contract() {
-    let d: u64 = kani::any();
-    kani::assume(d < u64::MAX);
-    let mut fs = FrameStack::verif_new(d);
-    let regs = RegFile::verif_any();
-    let mem = MemArray::verif_any();
-    let ft = match kani::any::<u8>() % 3 { 0 => FrameType::Subroutine, 1 => FrameType::Trap, _ => FrameType::Interrupt };
-    kani::cover!(d == 0, "depth zero reachable");
-    fs.push_frame(kani::any(), kani::any(), ft, &regs, &mem);
-    assert!(fs.len() == d + 1, "C27.push: depth + 1");
-    assert!(fs.frames().is_none(), "C27.push: no frame list without debug frames");
-    fs.pop_frame();
-    assert!(fs.len() == d, "C27.pop: depth - 1");
-    let mut z = FrameStack::verif_new(0);
-    z.pop_frame();
-    assert!(z.len() == 0 && z.is_empty(), "C27.pop: saturates at zero");
-}
-
-/// C27 with debug frames, no signature registered for the callee: the frame records caller, callee, kind.
-/// (PRE = number of frames already on the list; concrete sizes: allocations of symbolic size are what CBMC cannot digest.)
-fn debug_frame_case<const PRE: usize>() {
-    let d: u64 = kani::any();
-    kani::assume(d < u64::MAX);
-    let mut frames: Vec<Frame> = Vec::with_capacity(4);
-    let mut i = 0;
-    while i < PRE { frames.push(Frame { caller_addr: 1, callee_addr: 2, frame_type: FrameType::Trap, frame_ptr: None, arguments: Vec::new() }); i += 1; }
-    let mut fs = FrameStack::verif_with_frames(d, frames);
-    let regs = RegFile::verif_any();
-    let mem = MemArray::verif_any();
-    let (caller, callee): (u16, u16) = (kani::any(), kani::any());
-    let k: u8 = kani::any();
-    kani::assume(k < 3);
-    let ft = match k { 0 => FrameType::Subroutine, 1 => FrameType::Trap, _ => FrameType::Interrupt };
-    fs.push_frame(caller, callee, ft, &regs, &mem);
-    assert!(fs.len() == d + 1, "C27.debug: depth + 1");
-    assert!(fs.verif_frames_len() == Some(PRE + 1), "C27.debug: exactly one entry added");
-    {
-        let fr = fs.frames().unwrap();
-        let top = &fr[PRE];
-        assert!(top.caller_addr == caller && top.callee_addr == callee && top.frame_type == ft, "C27.debug: entry holds caller, callee and kind");
-        assert!(top.frame_ptr.is_none() && top.arguments.is_empty(), "C27.debug: no signature -> no arguments");
-    }
-    fs.pop_frame();
-    assert!(fs.len() == d && fs.verif_frames_len() == Some(PRE), "C27.debug: pop removes the entry");
-    std::mem::forget(fs);
-}
-#[kani::proof] #[kani::stub(std::hash::RandomState::new, stub_random_state)] #[kani::unwind(9)]
-fn debug_frame_0() { debug_frame_case::<0>() }
-#[kani::proof] #[kani::stub(std::hash::RandomState::new, stub_random_state)] #[kani::unwind(9)]
-fn debug_frame_1() { debug_frame_case::<1>() }
-
-/// C27: arguments described by a pass-by-register signature (N parameters) or the standard calling
-/// convention (N parameters, read from FP+4.. where FP = R6 - 4).
-fn arguments_case<const N: usize>() {
-    let regs = RegFile::verif_any();
-    let mem = MemArray::verif_any();
-    let snapshot = regs.verif_snapshot();
-    let (a, b): (u8, u8) = (kani::any(), kani::any());
-    kani::assume(a < 8 && b < 8);
-    let (ra, rb) = (Reg::try_from(a).unwrap(), Reg::try_from(b).unwrap());
-    let mut params: Vec<(String, Reg)> = Vec::with_capacity(2);
-    if N >= 1 { params.push((String::new(), ra)); }
-    if N >= 2 { params.push((String::new(), rb)); }
-    let pl = ParameterList::PassByRegister { params, ret: None };
-    let args = pl.get_arguments(&regs, &mem, kani::any());
-    assert!(args.len() == N, "C27.args: one argument per parameter");
-    if N >= 1 { assert!(args[0] == snapshot[a as usize], "C27.args: first argument from its register"); }
-    if N >= 2 { assert!(args[1] == snapshot[b as usize], "C27.args: second argument from its register"); }
-    let fp: u16 = kani::any();
-    let mut names: Vec<String> = Vec::with_capacity(2);
-    if N >= 1 { names.push(String::new()); }
-    if N >= 2 { names.push(String::new()); }
-    let pl2 = ParameterList::CallingConvention { params: names };
-    let args2 = pl2.get_arguments(&regs, &mem, fp);
-    assert!(args2.len() == N, "C27.args: one argument per parameter (calling convention)");
-    if N >= 1 { assert!(args2[0] == mem[fp.wrapping_add(4)], "C27.args: first argument at FP+4"); }
-    if N >= 2 { assert!(args2[1] == mem[fp.wrapping_add(5)], "C27.args: second argument at FP+5"); }
-    std::mem::forget((pl, pl2, args, args2));
-}
-#[kani::proof] #[kani::unwind(9)] fn arguments_0() { arguments_case::<0>() }
-#[kani::proof] #[kani::unwind(9)] fn arguments_1() { arguments_case::<1>() }
-#[kani::proof] #[kani::unwind(9)] fn arguments_2() { arguments_case::<2>() }
-
-/// C27: a signature registered for the callee describes the arguments of its frames; registering again replaces
-/// the earlier signature.  BOUNDED: one callee at a concrete address (hashing a symbolic key is out of reach),
-/// one-parameter signatures; register choice and machine state symbolic.
-#[kani::proof]
-#[kani::stub(std::hash::RandomState::new, stub_random_state)]
-#[kani::unwind(9)]
-fn debug_frame_with_signature() {
-    const CALLEE: u16 = 0x4000;
-    let frames: Vec<Frame> = Vec::with_capacity(4);
-    let mut fs = FrameStack::verif_with_frames(kani::any::<u64>() >> 1, frames);
-    let regs = RegFile::verif_any();
-    let mem = MemArray::verif_any();
-    let snapshot = regs.verif_snapshot();
-    let (a, b): (u8, u8) = (kani::any(), kani::any());
-    kani::assume(a < 8 && b < 8);
-    let mut p1: Vec<(String, Reg)> = Vec::with_capacity(1); p1.push((String::new(), Reg::try_from(a).unwrap()));
-    let mut p2: Vec<(String, Reg)> = Vec::with_capacity(1); p2.push((String::new(), Reg::try_from(b).unwrap()));
-    fs.set_subroutine_def(CALLEE, ParameterList::PassByRegister { params: p1, ret: None });
-    fs.set_subroutine_def(CALLEE, ParameterList::PassByRegister { params: p2, ret: None });   // re-registration replaces
-    match fs.get_subroutine_def(CALLEE) {
-        Some(ParameterList::PassByRegister { params, .. }) => assert!(params.len() == 1 && params[0].1.reg_no() == b, "C27.sig: the signature registered last is the callee's signature"),
-        _ => assert!(false, "C27.sig: a registered signature can be queried"),
-    }
-    let caller: u16 = kani::any();
-    fs.push_frame(caller, CALLEE, FrameType::Subroutine, &regs, &mem);
-    {
-        let fr = fs.frames().unwrap();
-        assert!(fr.len() == 1 && fr[0].caller_addr == caller && fr[0].callee_addr == CALLEE && fr[0].frame_type == FrameType::Subroutine, "C27.debug: entry holds caller, callee and kind");
-        assert!(fr[0].arguments.len() == 1 && fr[0].arguments[0] == snapshot[b as usize] && fr[0].frame_ptr.is_none(), "C27.sig: arguments are those described by the registered signature");
-    }
-    std::mem::forget(fs);
 }
